@@ -52,10 +52,19 @@ PROPS = {
         "trusted_base": ["harness/src/s_determ.rs", "RandomState reseeding per HashMap in std (fresh builds give fresh iteration orders)"],
         "assumptions": ["iteration orders actually exercised are those std's RandomState produces in N builds"],
     },
+    "C10": {
+        "module": "BiscuitModel.Props.C10",
+        "streams": ["limits", "engine"],
+        "level_text": "Lean 4 theorems about the engine loop and the authorizer's cumulative accounting: run_ok_within_facts / run_ok_within_iterations (a run that ends Ok held fewer facts than max_facts at every point it was checked, including the facts present before the first iteration, and made fewer productive iterations than max_iterations, also for 0), limit_hit_is_error, run_never_out_of_fuel (the loop ends by itself), timeout_at_checkpoint (abstract clock), and history_within_budget / successful_call_within_budget / exhausted_budget_refuses: over ANY history of authorize/query/query_all calls on one authorizer, including histories where earlier calls hit a limit, every successful call leaves counters within the budget. Tie: generated programs with limit triples at 0, 1, k-1, k, k+1 of the measured need and call histories of length 1-4 are run on the implementation and the compiled model; per call the result, iterations() and fact_count() are compared. Time is exercised with the cfg-guarded fake clock and a `tick` extern function: an implementation-only oracle checks that no call succeeds once the calls together have spent max_time.",
+        "level_note": "Partial for time: the model's clock is abstract (Limits.timeoutAt); wall-clock promptness and the cost of a single iteration are runtime behaviour no model here can exhibit. Time cases are decided by the oracle on the implementation only (search support), not by a theorem. Known finding recorded: the time budget restarts after a failed run.",
+        "rule": "limits stream: corpus (the three fixed findings) first; seeded authz-style programs, first with a generous budget to measure need, then three boundary budgets each, with histories of 1-4 calls; every fourth program also as a fake-clock time case; non-trivial = a history with a limit outcome or with more than one call; distinct = distinct case JSON",
+        "trusted_base": ["harness/src/s_limits.rs", "hook H1 (fake clock, biscuit-auth/src/time.rs under cfg biscuit_verif)", "tools/props.py oracle_limits"],
+        "assumptions": ["time: only what passes through the fake clock is observed"],
+    },
 }
 
 
-HOOK_COMMITS = []
+HOOK_COMMITS = ["c507bdb"]
 
 # ---------------------------------------------------------------- comparators
 def cmp_default(case, impl, model):
@@ -187,7 +196,28 @@ def cmp_determ(case, impl, model):
     return cmp_authz(case, outs[0], model)
 
 
-COMPARATORS = {"expr": cmp_default, "engine": cmp_engine, "authz": cmp_authz, "atten": cmp_atten, "determ": cmp_determ}
+def cmp_limits(case, impl, model):
+    if "driver_error" in model:
+        return "driver error: %s" % model["driver_error"]
+    if "panic" in impl:
+        return "implementation panicked: %s" % impl["panic"]
+    if model.get("skip") or model.get("amb"):
+        return "skip"
+    ci, cm = impl["calls"], model["calls"]
+    if len(ci) != len(cm):
+        return "number of call outcomes differs: impl %d model %d" % (len(ci), len(cm))
+    for n, (a, b) in enumerate(zip(ci, cm)):
+        for k in ("r", "p", "pk", "failed", "iterations", "fact_count"):
+            if a.get(k) != b.get(k):
+                if k in ("iterations", "fact_count") and a.get("r") in ("exec", "token-error", "invalid-rule"):
+                    continue
+                return "call %d: %s differs: impl %s model %s" % (n, k, json.dumps(a.get(k)), json.dumps(b.get(k)))
+        if a.get("r") == "answer" and _canon_query(a) != _canon_query(b):
+            return "call %d: query answer differs" % n
+    return None
+
+
+COMPARATORS = {"limits": cmp_limits, "expr": cmp_default, "engine": cmp_engine, "authz": cmp_authz, "atten": cmp_atten, "determ": cmp_determ}
 
 
 def nontrivial(stream, case, impl):
@@ -195,6 +225,8 @@ def nontrivial(stream, case, impl):
         return impl.get("err") != "InvalidStack"
     if stream == "authz":
         return impl.get("r") in ("ok", "nomatch", "unauth")
+    if stream == "limits":
+        return any(o.get("r", "").startswith("limit") for o in impl.get("calls", [])) or len(impl.get("calls", [])) > 1
     if stream == "determ":
         return impl.get("outcomes", [{}])[0].get("r") in ("ok", "nomatch", "unauth")
     if stream == "atten":
@@ -251,7 +283,29 @@ def oracle_atten(case, impl):
     return None
 
 
-ORACLES = {("C06", "expr"): oracle_expr, ("C03", "atten"): oracle_atten}
+def oracle_limits(case, impl):
+    """C10 on the implementation alone: success only within budget, counters never above the budget on success,
+    and (fake clock) no success once the cumulative time spent reaches max_time"""
+    if "panic" in impl:
+        return "panic: %s" % impl["panic"]
+    lim = case["limits"]
+    for n, o in enumerate(impl.get("calls", [])):
+        ok = o.get("r") in ("ok", "nomatch", "unauth", "answer")
+        if ok and "iterations" in o:
+            if o["iterations"] > lim["i"]:
+                return "call %d succeeded with iterations()=%d above max_iterations=%d" % (n, o["iterations"], lim["i"])
+            if o["fact_count"] > lim["f"]:
+                return "call %d succeeded with fact_count()=%d above max_facts=%d" % (n, o["fact_count"], lim["f"])
+        if case.get("time") and "ticked_before" in o:
+            t = lim["t"]
+            if ok and o["ticked_before"] >= t:
+                return "call %d succeeded although %d ms of the %d ms budget were already spent by earlier calls" % (n, o["ticked_before"], t)
+            if o.get("r") in ("ok", "nomatch", "unauth") and o["ticked_after"] >= t:
+                return "authorize (call %d) succeeded after %d ms of evaluation for a %d ms budget" % (n, o["ticked_after"], t)
+    return None
+
+
+ORACLES = {("C10", "limits"): oracle_limits, ("C06", "expr"): oracle_expr, ("C03", "atten"): oracle_atten}
 
 
 def signature(d):
@@ -282,7 +336,19 @@ def match_amb(k, d):
     return bool(d["model"].get("amb")) and d["why"].startswith("order-dependent outcome")
 
 
-MATCHERS = {"amb": match_amb}
+def match_time_after_failed_run(k, d):
+    """cumulative-time oracle failure where an earlier call of the same history ended in a run limit"""
+    if "already spent by earlier calls" not in d["why"] and "ms of evaluation" not in d["why"]:
+        return False
+    calls = d["impl"].get("calls", [])
+    for n, o in enumerate(calls):
+        ok = o.get("r") in ("ok", "nomatch", "unauth", "answer")
+        if ok and o.get("ticked_after", 0) >= d["case"]["limits"]["t"]:
+            return any(str(p.get("r", "")).startswith("limit") for p in calls[:n])
+    return False
+
+
+MATCHERS = {"amb": match_amb, "time-after-failed-run": match_time_after_failed_run}
 
 
 # ---------------------------------------------------------------- shrinking
